@@ -114,3 +114,38 @@ Proof.
   intros [h1 i1] [h2 i2] H1 H2 Heq. apply In_due in H1. apply In_due in H2. simpl in *.
   destruct H1 as [-> _]. destruct H2 as [-> _]. congruence.
 Qed.
+
+(** ** association lists: a few more facts *)
+Lemma get_filter_key {K V} `{EqDec K} (pk : K -> bool) (k : K) (m : amap K V) :
+  get k (filter (fun kv => pk (fst kv)) m) = if pk k then get k m else None.
+Proof.
+  induction m as [|[k0 v0] m IH]; simpl; [destruct (pk k); reflexivity|].
+  destruct (pk k0) eqn:E0; simpl.
+  - destruct (eq_dec k k0) as [->|Hne]; [rewrite E0; reflexivity|exact IH].
+  - destruct (eq_dec k k0) as [->|Hne]; [rewrite E0 in *; exact IH|exact IH].
+Qed.
+
+Lemma NoDup_keys_filter {K V} (p : K * V -> bool) (m : list (K * V)) :
+  NoDup (map fst m) -> NoDup (map fst (filter p m)).
+Proof.
+  induction m as [|[k v] m IH]; simpl; intros Hnd; [constructor|].
+  inversion Hnd as [|? ? Hn Hnd']; subst. destruct (p (k, v)); simpl; [|auto].
+  constructor; [|auto]. intros Hin. apply Hn. apply in_map_iff in Hin.
+  destruct Hin as (x & Hx & Hin). apply filter_In in Hin. apply in_map_iff. exists x. tauto.
+Qed.
+
+Lemma In_get_some {K V} `{EqDec K} (k : K) (v : V) (m : amap K V) :
+  In (k, v) m -> exists v', get k m = Some v'.
+Proof.
+  induction m as [|[k0 v0] m IH]; simpl; [tauto|].
+  intros [Heq|Hin]; destruct (eq_dec k k0) as [->|Hne]; eauto. congruence.
+Qed.
+
+Lemma NoDup_app_disj {A} (a b : list A) :
+  NoDup a -> NoDup b -> (forall x, In x a -> ~ In x b) -> NoDup (a ++ b).
+Proof.
+  induction 1 as [|x a Hx Hnd IH]; simpl; intros Hb Hd; [exact Hb|].
+  constructor.
+  - rewrite in_app_iff. intros [H|H]; [contradiction|]. exact (Hd x (or_introl eq_refl) H).
+  - apply IH; [exact Hb|]. intros y Hy. apply Hd. right. exact Hy.
+Qed.
